@@ -28,6 +28,20 @@ type mObj struct {
 	Data   map[string]string `json:"data"`
 	Labels map[string]string `json:"labels"`
 	Annos  map[string]string `json:"annos"`
+	// Ver: the apiVersion an unstructured object is spelled with in this manifest (the test kind is served under two
+	// versions of one group; the API server keeps one object for both).  Not part of the model: an object is its
+	// kind, namespace and name.
+	Ver string `json:"-"`
+}
+
+func (o mObj) apiVersion() string {
+	if o.Typed {
+		return "v1"
+	}
+	if o.Ver != "" {
+		return o.Ver
+	}
+	return "apitest/v1"
 }
 
 func (o mObj) kind() string {
@@ -50,7 +64,7 @@ func objKey(typed bool, name string) string { return objKeyNs(typed, "default", 
 
 func (o mObj) yaml() string {
 	var b strings.Builder
-	fmt.Fprintf(&b, "apiVersion: v1\nkind: %s\nmetadata:\n  name: %s\n", o.kind(), o.name())
+	fmt.Fprintf(&b, "apiVersion: %s\nkind: %s\nmetadata:\n  name: %s\n", o.apiVersion(), o.kind(), o.name())
 	if o.ns() != "default" {
 		fmt.Fprintf(&b, "  namespace: %s\n", o.ns())
 	}
@@ -77,7 +91,7 @@ func (o mObj) server() map[string]any {
 	if len(o.Annos) > 0 {
 		md["annotations"] = strMapAny(o.Annos)
 	}
-	out := map[string]any{"apiVersion": "v1", "kind": o.kind(), "metadata": md}
+	out := map[string]any{"apiVersion": o.apiVersion(), "kind": o.kind(), "metadata": md}
 	if len(o.Data) > 0 {
 		out["data"] = strMapAny(o.Data)
 	}
@@ -190,6 +204,10 @@ func genManifest(r *Rng) []mObj {
 		}
 		used[k] = true
 		o := mObj{Key: k, Typed: typed, Data: genKData(r), Labels: map[string]string{}, Annos: map[string]string{}}
+		if !typed {
+			// no extra random draw: the spelling follows from the data that was drawn
+			o.Ver = []string{"apitest/v1", "apitest/unlikelyversion"}[len(o.Data)%2]
+		}
 		if r.Chance(25) {
 			o.Labels["app"] = Pick(r, dataVals)
 		}
@@ -256,7 +274,7 @@ func ownerMeta(state string) (map[string]string, map[string]string) {
 func corrKube(seed uint64, n int, tier string, out string, replay string) {
 	m := StartModel()
 	defer m.Close()
-	rep := NewReport("C02", "kube", seed, "case = history of 2-6 operations (install / upgrade / rollback / uninstall, with take-ownership, force, dry-run variants) over manifests of 0-3 resources (typed ConfigMaps and the unstructured test kind; data, labels, keep / other resource-policy annotations) against the simulated API server behind the real kube.Client, interleaved with out-of-band edits (change / add / delete a field, toggle the keep annotation, delete an object), pre-existing objects in six ownership states, and bystanders; after every operation the object store and the multiset of mutating requests are compared with the Lean cluster model, and the property monitors (targets present with the manifest's fields, removed ones deleted unless kept live, bystanders untouched, stamping, deletes confined) run on the implementation's store and request log; the API server rejects the creation of one object in about one operation in ten and the history goes on through the failed revision; non-trivial = at least 2 operations changed the cluster; distinct = hash of the history")
+	rep := NewReport("C02", "kube", seed, "case = history of 2-6 operations (install / upgrade / rollback / uninstall, with take-ownership, force, dry-run variants) over manifests of 0-3 resources (typed ConfigMaps and the unstructured test kind, the latter spelled with either of its two API versions from one revision to the next; data, labels, keep / other resource-policy annotations) against the simulated API server behind the real kube.Client, interleaved with out-of-band edits (change / add / delete a field, toggle the keep annotation, delete an object), pre-existing objects in six ownership states, and bystanders; after every operation the object store and the multiset of mutating requests are compared with the Lean cluster model, and the property monitors (targets present with the manifest's fields, removed ones deleted unless kept live, bystanders untouched, stamping, deletes confined) run on the implementation's store and request log; the API server rejects the creation of one object in about one operation in ten and the history goes on through the failed revision; non-trivial = at least 2 operations changed the cluster; distinct = hash of the history")
 	for _, id := range caseSeq("kube", seed, n) {
 		kubeHistory(m, rep, NewRng(id.Seed, uint64(id.Index)), id.Seed, id.Index)
 	}
@@ -399,6 +417,14 @@ func kubeHistory(m *Model, rep *Report, r *Rng, seed uint64, idx int) {
 		}
 		if st.Kind == "install" || st.Kind == "upgrade" {
 			st.Manifest = genManifest(r)
+		}
+		if st.Kind == "install" {
+			// an install that adopts an existing object computes a three-way JSON merge with the live object, whose
+			// apiVersion the real API server would report in the version asked for; the simulator stores one spelling,
+			// so installs use that spelling and the version changes come with upgrades and rollbacks
+			for k := range st.Manifest {
+				st.Manifest[k].Ver = ""
+			}
 		}
 		// the manifests the operation works with (by the harness's own book-keeping)
 		var deployed, target []mObj
@@ -666,7 +692,11 @@ func kubeSuccessMonitors(rep *Report, st kubeStep, before, after, deployed, targ
 				}
 			}
 			if live.Labels["app.kubernetes.io/managed-by"] != "Helm" || live.Annos["meta.helm.sh/release-name"] != "app" || live.Annos["meta.helm.sh/release-namespace"] != "default" {
-				rep.Issue(Issue{Kind: "monitor", Fingerprint: "C07:not-stamped", What: t.Key + " lacks the ownership label/annotations after a successful " + st.Kind, Case: cs, Seed: seed, Index: idx})
+				fp := "C07:not-stamped" // known for unstructured kinds only (two-way patch of an adopted object is empty)
+				if t.Typed {
+					fp = "C07:not-stamped:typed"
+				}
+				rep.Issue(Issue{Kind: "monitor", Fingerprint: fp, What: t.Key + " lacks the ownership label/annotations after a successful " + st.Kind, Case: cs, Seed: seed, Index: idx})
 			}
 		}
 		if st.Kind != "install" && !st.targetsOnly {
